@@ -5,6 +5,7 @@ import (
 	"net/url"
 	"strings"
 	"sync"
+	"unicode/utf8"
 
 	"github.com/microcosm-cc/bluemonday"
 	"golang.org/x/net/html"
@@ -324,6 +325,9 @@ func wellFormedData(k string) bool {
 	rest := k[5:]
 	if strings.HasPrefix(rest, "xml") {
 		return false
+	}
+	if !utf8.ValidString(rest) {
+		return false // bytes that are not UTF-8 are no characters, let alone name characters
 	}
 	for _, c := range rest {
 		switch {
